@@ -141,8 +141,7 @@ theorem updateCluster_spec (s : Snaps) (ranks : List (List String)) (b : Int) (h
   have hle := snapBlockNo_le b hb
   simp only [updateCluster, getCurrent, specSet]
   by_cases hz : snapBlockNo b = 0
-  · have : (snapBlockNo b == 0) = true := by simp [hz]
-    simp only [this, if_true, hz]
+  · simp only [if_true, hz]
     have : s.genesis.all idOk = true := hg
     simp [this]
   · have : (snapBlockNo b == 0) = false := by simp [hz]
